@@ -158,7 +158,9 @@ def run_console_job(job, build):
     ea, eb = C13.text_exec(progs["none"]), C13.text_exec(progs["full"])
     n, prefix = job["n"], job["prefix"]
     out = {"stats": None, "cex": [], "inconclusive": [], "samples": [], "nontrivial": 0, "classes": {}, "joint": 0}
-    template = C13.TEMPLATES["deflist"]
+    # two items, like every real help listing (the item under test is followed by the `-h` line, so nothing
+    # depends on how the very end of a document is trimmed)
+    template = C13.TEMPLATES["deflist2"]
 
     def harness(ex):
         ex.fresh_n = 0
@@ -168,7 +170,7 @@ def run_console_job(job, build):
             ex.assume(z3.Or(*[b == a for a in CONSOLE_ALPHA]))
         body = list(prefix.encode()) + bs
         tokens, payload = [], []
-        texts = {2: list(b"-a"), 5: body}
+        texts = {2: list(b"-a"), 3: [], 6: body, 9: list(b"-h"), 12: list(b"help")}
         for i, (kind, arg) in enumerate(template):
             if kind == "T":
                 t = texts[i]
@@ -438,7 +440,7 @@ def finish(results, jobs, build, out, tier, seed, wall):
             if c.get("reproduced"):
                 out.violation(key, what, c)
             else:
-                out.inconc("NONREPRO %s predicted %s native %s (%s)" % (key, c["predicted"], c["native"], c["why"]))
+                out.inconc("NONREPRO %s%s predicted %s native %s (%s)" % (key, (" help text %r" % c["help_text"]) if c.get("help_text") is not None else "", c["predicted"], c["native"], c["why"]))
     joint = sum(r.get("joint", 0) for r in results)
     nmax = 2 if tier == "quick" else 3
     cov = {
